@@ -1622,11 +1622,12 @@ class Exploration:
         self.unknown_paths = 0
         self.complete = True
         self.wall_s = 0.0
+        self.reached = 0        # paths that ran to the end of the harness (reachability witness)
 
     def summary(self):
         d = self.stats.as_dict()
         d.update(name=self.name, statuses=self.statuses, complete=self.complete,
-                 unknown_paths=self.unknown_paths, wall_s=round(self.wall_s, 2))
+                 unknown_paths=self.unknown_paths, wall_s=round(self.wall_s, 2), reached_end=self.reached)
         return d
 
 
@@ -1665,6 +1666,10 @@ def explore(harness, ctx=None, name=None, workers=None, max_paths=2000000,
                 groups[gk] = c + 1
                 if c < 4 and len(groups) <= 400:
                     exp.failures.append(f)
+            for nt in r.notes:
+                if isinstance(nt, dict) and nt.get('t') == 'reached':
+                    exp.reached += 1
+                    break
             if on_result is not None:
                 on_result(r)
             if len(exp.notes) < keep_notes:
